@@ -468,7 +468,8 @@ class Corpus:
         self.dir = d
         with common.locked("cargo"):
             os.makedirs(os.path.join(d, "src"), exist_ok=True)
-            shutil.copy(os.path.join(SRC, "Cargo.toml"), os.path.join(d, "Cargo.toml"))
+            with open(os.path.join(d, "Cargo.toml"), "w") as f:
+                f.write(common.repo_paths(open(os.path.join(SRC, "Cargo.toml")).read()))
             if not os.path.exists(os.path.join(d, "Cargo.lock")):
                 shutil.copy(os.path.join(REPO, "Cargo.lock"), os.path.join(d, "Cargo.lock"))
             shutil.copy(os.path.join(SRC, "src", "rt.rs"), os.path.join(d, "src", "rt.rs"))
